@@ -222,6 +222,12 @@ class DataBlock(ByteBlock):
         b._add_to_uuid_cache(ir._local_uuid_cache)
         return b
 
+    def deep_eq(self, other: object) -> bool:
+        # Do not move __eq__. See docstring for Node.deep_eq for more info.
+        if not isinstance(other, DataBlock):
+            return False
+        return super().deep_eq(other)
+
     def _to_protobuf(self) -> DataBlock_pb2.DataBlock:
         proto_dataobject = DataBlock_pb2.DataBlock()
         proto_dataobject.uuid = self.uuid.bytes
